@@ -25,7 +25,7 @@ MCVarOptSet(c) ==
 CONSTANT Narrow   \* TRUE: at most one variant wider than two fields (quick instance); FALSE: no such restriction
 MCFieldSet(c) ==
   IF NVariants(c) > 0 /\ Narrow /\ ~MayWiden(c) THEN {}
-  ELSE { [DefField EXCEPT !.eq = t] : t \in Treatments }
+  ELSE WithRef(c, { [DefField EXCEPT !.eq = t] : t \in Treatments })
 MCAdmissible(c) == Narrow => WideOK(c)
 
 \* State-space reductions for the design-level run (the implementation corpus is
@@ -105,4 +105,7 @@ Laws ==
       /\ \A a \in V : \A b \in V : \A d \in V :
            (LawEq(cfg, a, b) /\ LawEq(cfg, b, d)) => LawEq(cfg, a, d)
 
+\* corpus-only exploration (used where only the configurations are wanted, not the run machine): states in which a
+\* run has begun are not expanded
+CorpusOnly == run = NoRun
 =============================================================================
